@@ -40,6 +40,20 @@ SCENARIOS.update({
                              "threads": {"A": [["send_text", P("A", 0)]], "B": [["send_text_raw", P("B", 0)]],
                                          "C": [["send_ping", "C-0:ping"]]}},
 })
+BIG = rc.big_payload
+SCENARIOS.update({
+    # payload sizes of the other length classes: 16-bit length form, and beyond 64 KiB (64-bit length form, larger than any
+    # buffer or chunk size in the client) - racing with a small frame of another thread / of the event loop
+    "medium_vs_ping_plain": {"deflate": False, "threads": {"A": [["send_text", BIG("A", 0, 300)]], "B": [["send_ping", "B-0:ping"]]}},
+    "large_vs_ping_plain": {"deflate": False, "threads": {"A": [["send_binary", BIG("A", 0, 70000)]], "B": [["send_ping", "B-0:ping"]]}},
+    "large_vs_text_plain": {"deflate": False, "threads": {"A": [["send_text", BIG("A", 0, 140000)]], "B": [["send_text", P("B", 0)]]}},
+    "large_uncompressed_vs_ping_deflate": {"deflate": True, "threads": {"A": [["send_text_raw", BIG("A", 0, 70000)]],
+                                                                         "B": [["send_ping", "B-0:ping"]]}},
+    "large_incompressible_vs_ping_deflate": {"deflate": True, "threads": {"A": [["send_binary", BIG("A", 0, 150000)]],
+                                                                           "B": [["send_ping", "B-0:ping"]]}},
+    "large_vs_autopong_plain": {"deflate": False, "threads": {"A": [["send_binary", BIG("A", 0, 70000)]]},
+                                "loop": {"bytes": PINGS2, "idle_waits": 0}, "copts": {"ping_rate": 0}},
+})
 BOUND2 = ["2x1_text_plain", "2x1_text_deflate", "2x1_text_binary_deflate", "2x1_text_ping_deflate"]
 _BASE = {}
 
@@ -121,7 +135,8 @@ def judge(scn, out):
 class C11(Prop):
     id = "C11"
     level = "exploration"
-    rule = ("13 scenarios (2-3 application threads x 1-3 sends of mutually similar payloads, text/binary/ping, with and without "
+    rule = ("19 scenarios (2-3 application threads x 1-3 sends of mutually similar payloads - short ones, one of 300 bytes and "
+            "hardly compressible ones of 70 000-150 000 bytes -, text/binary/ping, with and without "
             "permessage-deflate context takeover, optionally the event-loop thread answering Pings or crossing a ping deadline) "
             "run under a deterministic scheduler that serialises real threads at source-line granularity inside lomond plus the "
             "lock acquisition and the middle of every sendall. Schedules: every initial thread order x every single preemption at "
